@@ -208,6 +208,40 @@ func c09Run(c *fw.Ctx) {
 		}
 	})
 
+	// ---- 1b. the same question for the Cognito provider, which revalidates through its userinfo endpoint ----
+	ce := envs.get("c09-cognito", harness.AuthOpts{EmailDomains: []string{"corp.test"}, RootDomains: []string{"sso.test"}, Lifetime: L, ProviderType: "cognito"})
+	drive(c, "sign_in-cognito", -1, func(x *explore.Exec, owned bool) {
+		setNow(0)
+		due := x.Choose("token-deadline", 2)
+		sess := &sessions.SessionState{ProviderSlug: ce.Slug, AccessToken: "idp-access-token", RefreshToken: "idp-refresh-token", Email: "bob@corp.test", User: "bob",
+			LifetimeDeadline: future, RefreshDeadline: []time.Time{future, past}[due], ValidDeadline: future}
+		okUser := ans(200, `{"email":"bob@corp.test","username":"bob"}`)
+		bad := []harness.AuthAnswer{okUser, ans(401, `{"error":"invalid_token"}`), ans(403, "forbidden"), ans(404, "not found"), ans(400, `{"error":"invalid_request"}`), ans(429, "slow"), ans(500, "boom"), ans(200, "malformed{")}
+		idpScript{x: x, userinfo: bad, refresh: []harness.AuthAnswer{refreshOK, ans(401, `{"error":"invalid_grant"}`), ans(403, "forbidden"), ans(400, `{"error":"invalid_grant"}`), ans(500, "boom")}}.install(ce)
+		resp := ce.Do(harness.NewRequest("GET", signedSignIn(ce, good, now), harness.AuthHost, http.Header{"Cookie": {ce.CookieName + "=" + ce.Seal(sess)}}, nil))
+		if !owned {
+			return
+		}
+		var calls []string
+		okAll, asked := true, false
+		for _, cl := range resp.Calls {
+			calls = append(calls, cl.Endpoint+"/"+cl.Grant+" -> "+cl.Answer)
+			asked = true
+			if !strings.HasPrefix(cl.Answer, "200") || strings.Contains(cl.Answer, "malformed") {
+				okAll = false
+			}
+		}
+		codes := codesIn(ce, resp)
+		d := map[string]interface{}{"provider": "cognito", "token_deadline": fp(due), "idp_calls": calls, "status": resp.Status, "location": truncate(resp.Location, 160)}
+		c.Res.Outcome(fmt.Sprintf("sign_in-cognito|%v|%v|%d|codes=%d", due, calls, resp.Status, len(codes)))
+		if len(codes) > 0 {
+			c.Res.Count("positive_codes_issued_cognito", 1)
+			if !(asked && okAll) {
+				c.Res.Violate(fw.Violation{Property: "C09", Key: "C09/sign_in-cognito/code-without-provider-confirmation", What: fmt.Sprintf("a code was issued although Cognito did not accept the token in this step (calls %v)", calls), Scenario: "sign_in-cognito", Choices: x.Choices(), Detail: d})
+			}
+		}
+	})
+
 	// ---- 2. identity-provider callback ----------------------------------------------------------
 	nonceA, nonceB := "aaaaaaaaaaaaaaaaaaaaaaaaaaaaaaaa", "bbbbbbbbbbbbbbbbbbbbbbbbbbbbbbbb"
 	b64 := func(s string) string { return base64.URLEncoding.EncodeToString([]byte(s)) }
@@ -351,7 +385,7 @@ func init() {
 		ID:    "C09",
 		Level: "exploration",
 		Rule: "(sign_in) correctly signed sign-in requests with authenticator cookie {absent, garbage, sealed under another key, genuine x lifetime {future, past} x token deadline {future, past} x refresh token {yes, no} x email {in domain, other domain, look-alike domain}} and the IdP's answers chosen on demand: introspect {active, inactive, 500, malformed}, refresh {200, 400 revoked, 500, malformed}; " +
-			"(callback) state {nonce_A / nonce_B with in-domain return, nonce_A with out-of-domain return, no colon, not base64, absent, empty nonce} x CSRF cookie {nonce_A, nonce_B, absent, odd} x code redemption {ok, rejected} x userinfo {verified in-domain, verified out-of-domain, unverified}; " +
+			"(sign_in-cognito) a valid Cognito-flavoured session (token deadline future/past) x userinfo answers {200, 401, 403, 404, 400, 429, 500, malformed} x refresh answers {200, 401, 403, 400, 500}; (callback) state {nonce_A / nonce_B with in-domain return, nonce_A with out-of-domain return, no colon, not base64, absent, empty nonce} x CSRF cookie {nonce_A, nonce_B, absent, odd} x code redemption {ok, rejected} x userinfo {verified in-domain, verified out-of-domain, unverified}; " +
 			"(history) a real login followed by 4 (thorough 6) signed sign-ins separated by gaps {below token expiry, beyond it, far beyond it, beyond the lifetime} with introspect {active, inactive} and refresh {ok, revoked, 503} on demand, the real cookies carried along. " +
 			"Oracle: a string that opens under the authenticator's code cipher appears in a response (every base64url-looking token of every header and the body is tried) only in a redirect to the signed URI, only for an authentic cookie within its lifetime whose token the IdP accepted in this step (after a refresh if due) and whose email passes the rule, and carries that user's email; the callback creates a session only when the state nonce equals the CSRF cookie, the code redeemed for a verified in-rule email and the return address is in domain; the lifetime deadline of re-issued cookies never changes; " +
 			"distinct_nontrivial = distinct (cookie, IdP calls, status, codes) / (state, cookie, calls, status, session) / history signatures",
